@@ -319,7 +319,8 @@ def rule_f(ctx: Context, R: Reporter, f: FuncInfo):
 
     def is_counts(e):
         # [len(per_iter[t]) for t in ...] (possibly wrapped in np.array)
-        return isinstance(e, ast.ListComp) and isinstance(e.elt, ast.Call) and dotted(e.elt.func) == "len"
+        # ... or the same counts produced lazily: np.fromiter((len(per_iter[t]) for t in ...), dtype=int, count=...)
+        return isinstance(e, (ast.ListComp, ast.GeneratorExp)) and isinstance(e.elt, ast.Call) and dotted(e.elt.func) == "len"
 
     def is_total(e):
         if isinstance(e, ast.Call) and ((isinstance(e.func, ast.Attribute) and e.func.attr == "sum" and any(is_counts(x) for x in ast.walk(e.func.value))) or
@@ -340,7 +341,7 @@ def rule_f(ctx: Context, R: Reporter, f: FuncInfo):
             return 1
         if isinstance(e, ast.Subscript):
             return sign_of(e.value)
-        if isinstance(e, ast.Call) and dotted(e.func).split(".")[-1] in ("asarray", "array", "float") and e.args:
+        if isinstance(e, ast.Call) and dotted(e.func).split(".")[-1] in ("asarray", "array", "float", "fromiter", "list", "tuple") and e.args:
             return sign_of(e.args[0])
         return None
 
